@@ -10,6 +10,8 @@
 #include <micm/jit/solver/jit_solver_builder.hpp>
 #include <micm/jit/solver/jit_solver_parameters.hpp>
 
+#include <micm/jit/process/jit_process_set.hpp>
+
 #include <iostream>
 
 namespace
@@ -154,7 +156,62 @@ namespace
            " status=" + vh::statusNameStr((int)rc.state_) + " steps=" + std::to_string(rc.stats_.number_of_steps_) +
            " equal=" + (eq ? "1" : "0") + firstdiff + " guard=" + guard;
   }
+
+  // function level: the generated forcing / Jacobian functions against the vectorised CPU kernels, including a
+  // history in which the flat ids are set twice (first on the declared pattern, then on the fill-closed one)
+  template<std::size_t L>
+  std::string compareFunctions(std::uint64_t seed)
+  {
+    Rng r{ seed * 104729 + L };
+    Problem p = makeProblem(r);
+    using VM = micm::VectorMatrix<double, L>;
+    using VS = micm::SparseMatrix<double, micm::SparseMatrixVectorOrdering<L>>;
+    std::map<std::string, std::size_t> vmap;
+    for (std::size_t i = 0; i < p.ns; ++i)
+      vmap["s" + std::to_string(i)] = i;
+    micm::ProcessSet cpu(p.procs, vmap);
+    micm::JitProcessSet<L> jit(p.procs, vmap);
+    std::size_t nrx = p.procs.size();
+    VM K(L, nrx, 0.0), Y(L, p.ns, 0.0), Fc(L, p.ns, 0.0), Fj(L, p.ns, 0.0);
+    for (std::size_t c = 0; c < L; ++c)
+    {
+      for (std::size_t k = 0; k < nrx; ++k)
+        K[c][k] = r.below(6) == 0 ? 0.0 : 10.0 * r.unit();
+      for (std::size_t i = 0; i < p.ns; ++i)
+        Y[c][i] = 5.0 * r.unit();
+    }
+    cpu.template AddForcingTerms<VM>(K, Y, Fc);
+    jit.template AddForcingTerms<VM>(K, Y, Fj);
+    bool eqF = Fc.AsVector().size() == Fj.AsVector().size();
+    for (std::size_t i = 0; eqF && i < Fc.AsVector().size(); ++i)
+      eqF = vh::hexd(Fc.AsVector()[i]) == vh::hexd(Fj.AsVector()[i]);
+    auto nz = cpu.NonZeroJacobianElements();
+    bool eqJ = true;
+    int rounds = 0;
+    for (int round = 0; round < 2; ++round)
+    {
+      VS J1 = micm::BuildJacobian<VS>(nz, L, p.ns);
+      VS Jc = round == 0 ? J1 : micm::LuDecompositionMozartInPlace::template GetLUMatrix<VS>(J1, 0);
+      VS Jj = Jc;
+      cpu.SetJacobianFlatIds(Jc);
+      jit.SetJacobianFlatIds(Jj);
+      Jc.Fill(0.0);
+      Jj.Fill(0.0);
+      cpu.template SubtractJacobianTerms<VM, VS>(K, Y, Jc);
+      jit.template SubtractJacobianTerms<VM, VS>(K, Y, Jj);
+      for (std::size_t i = 0; i < Jc.AsVector().size(); ++i)
+        if (vh::hexd(Jc.AsVector()[i]) != vh::hexd(Jj.AsVector()[i]))
+          eqJ = false;
+      ++rounds;
+    }
+    return "jitfn L=" + std::to_string(L) + " seed=" + std::to_string(seed) + " ns=" + std::to_string(p.ns) + " nrx=" + std::to_string(nrx) +
+           " forcing_equal=" + (eqF ? "1" : "0") + " jacobian_equal=" + (eqJ ? "1" : "0") + " rounds=" + std::to_string(rounds);
+  }
 }  // namespace
+
+namespace
+{
+}
 
 int main(int argc, char** argv)
 {
@@ -167,6 +224,10 @@ int main(int argc, char** argv)
     std::cout << vh::guarded([&]() { return compare<2>(seed); }) << std::endl;
     std::cout << vh::guarded([&]() { return compare<3>(seed); }) << std::endl;
     std::cout << vh::guarded([&]() { return compare<4>(seed); }) << std::endl;
+    std::cout << vh::guarded([&]() { return compareFunctions<1>(seed); }) << std::endl;
+    std::cout << vh::guarded([&]() { return compareFunctions<2>(seed); }) << std::endl;
+    std::cout << vh::guarded([&]() { return compareFunctions<3>(seed); }) << std::endl;
+    std::cout << vh::guarded([&]() { return compareFunctions<4>(seed); }) << std::endl;
   }
   return 0;
 }
